@@ -51,12 +51,17 @@ def regen(ctx):
 
 # ------------------------------------------------------------------ cases
 
-def gen_case(rnd, rescan_share=1.0):
+def gen_case(rnd, rescan_share=1.0, env_share=0.0):
     tree = sr.gen_tree(rnd, max_depth=rnd.choice([2, 3, 4, 4]))
     patterns = sr.gen_patterns(rnd, tree)
     muts = sr.gen_mutations(rnd, tree) if not sr.all_links(tree) else []      # mutations move / rewrite plain files only
-    return {"tree": sr.tree_to_json(tree), "patterns": patterns, "sources": sr.split_sources(rnd, patterns),
+    case = {"tree": sr.tree_to_json(tree), "patterns": patterns, "sources": sr.split_sources(rnd, patterns),
             "form": rnd.choice(FORMS), "mutations": muts if rnd.random() < rescan_share else []}
+    if env_share and rnd.random() < env_share:
+        # the surroundings of the root (directories above it: hidden / built-in-excluded / plain names, a git checkout's
+        # `.git` and `.gitignore` in one of them) are part of the case; only what lies under the root counts
+        case["env"] = sr.gen_env(rnd, tree)
+    return case
 
 
 def root_argument(T, form, tree):
@@ -64,19 +69,19 @@ def root_argument(T, form, tree):
     if form == "abs":
         return T.tmp, T.root
     if form == "rel":
-        return T.work, "root"
+        return T.parent, "root"
     if form == "dot":
         return T.root, "."
     if form == "dotdot":
-        return T.work, os.path.join("root", "..", "root")
+        return T.parent, os.path.join("root", "..", "root")
     if form == "dotdot_abs":
         return T.tmp, os.path.join(T.root, "..", "root")
     if form.startswith("link_"):
         return link_root_argument(T, form)
     subs = [c[1] for c in tree[2] if c[0] == "D"]
     if subs:
-        return T.work, os.path.join("root", subs[0], "..")
-    return T.work, os.path.join("..", "w", "root")
+        return T.parent, os.path.join("root", subs[0], "..")
+    return T.parent, os.path.join("..", os.path.basename(T.parent), "root")
 
 
 def link_root_argument(T, form):
@@ -86,12 +91,12 @@ def link_root_argument(T, form):
         <tmp>/z/lnk -> ../w/pivot                        <tmp>/z/rootlink -> ../w/root
         <tmp>/z/root/{main.py,decoy.py}                  what `z/lnk/../root` names when read textually (NOT the root)"""
     z = os.path.join(T.tmp, "z")
-    os.makedirs(os.path.join(T.work, "pivot", "sub"), exist_ok=True)
+    os.makedirs(os.path.join(T.parent, "pivot", "sub"), exist_ok=True)
     os.makedirs(os.path.join(z, "root", "src"), exist_ok=True)
     for rel in ("main.py", "decoy.py", os.path.join("src", "util.js")):
         with open(os.path.join(z, "root", rel), "w") as f:
             f.write("def decoy(a):\n    return a\n" if rel.endswith(".py") else "function decoy(a) {\n  return a;\n}\n")
-    for name, target in (("lnk", os.path.join("..", "w", "pivot")), ("rootlink", os.path.join("..", "w", "root"))):
+    for name, target in (("lnk", os.path.relpath(os.path.join(T.parent, "pivot"), z)), ("rootlink", os.path.relpath(T.root, z))):
         if not os.path.islink(os.path.join(z, name)):
             os.symlink(target, os.path.join(z, name))
     if form == "link_root":
@@ -101,7 +106,7 @@ def link_root_argument(T, form):
     elif form == "link_sub_dotdot":
         cwd, arg = T.tmp, os.path.join("z", "lnk", "sub", "..", "..", "root")
     else:
-        cwd, arg = T.work, z + "/lnk/..//root"
+        cwd, arg = T.parent, z + "/lnk/..//root"
     assert os.path.realpath(os.path.join(cwd, arg)) == os.path.realpath(T.root), (cwd, arg)
     return cwd, arg
 
@@ -109,7 +114,7 @@ def link_root_argument(T, form):
 def observe(case):
     """run the real scan on the case -> observation (JSON-able) + the model request line"""
     tree = sr.tree_from_json(case["tree"])
-    with sr.TempTree(tree) as T:
+    with sr.TempTree(tree, case.get("env")) as T:
         cwd, arg = root_argument(T, case["form"], tree)
         T.chdir(cwd)
         sr.install_exclusions(T.root, case["sources"], arg)
@@ -308,9 +313,20 @@ def _correspond_selection(ctx):
     for f in FORMS:
         cases.append(dict(FIXED[0], form=f))
     cases += [gen_case(rnd, ctx.pick(0.34, 0.5)) for _ in range(n)]
+    # the environment of the root: small fixed trees x generated surroundings x root forms, and a share of random trees
+    re_ = ctx.rng("environment")
+    for k in range(ctx.pick(12, 60)):
+        base = FIXED[1] if k % 2 else FIXED[3]
+        src = {"option": list(base["patterns"]), "config": [], "gitignore": []} if k % 4 < 2 else base["sources"]     # half of them: a root WITHOUT a .gitignore of its own
+        cases.append(dict(base, sources=src, form=FORMS[k % len(FORMS)], env=sr.gen_env(re_, sr.tree_from_json(base["tree"]))))
+    cases += [gen_case(re_, 0.2, 1.0) for _ in range(ctx.pick(60, 1500))]
     obs, dis, fails = run_cases(cases)
     dist = {"forms": {}, "sources": {}, "skip_reasons": {}, "files": 0, "selected": 0,
             "rescans_after_mutation": sum(1 for c in cases if c.get("mutations")),
+            "with_environment": sum(1 for c in cases if c.get("env")),
+            "environment_hidden_ancestor": sum(1 for c in cases if any(a.startswith(".") for a in (c.get("env") or {}).get("above", []))),
+            "environment_git_checkout_above": sum(1 for c in cases if any(f.split("/")[-1] == ".git" or "/.git/" in "/" + f for f in (c.get("env") or {}).get("files", {}))),
+            "environment_gitignore_above_and_none_at_root": sum(1 for c in cases if any(f.endswith(".gitignore") for f in (c.get("env") or {}).get("files", {})) and not c["sources"]["gitignore"]),
             "rescan_mutations": {k: sum(1 for c in cases for op in c.get("mutations", []) if op[0] == k) for k in ("copy", "move", "write", "delete")}}
     nontrivial = set()
     for c, (real, _l, _i) in zip(cases, obs):
@@ -358,7 +374,7 @@ def _correspond_selection(ctx):
     dist["gitignore_scan"] = gs["counts"]
     return {
         "evaluations": len(cases) + gi["counts"]["cases"] + gs["counts"].get("cases", 0) + gn["counts"]["cases"], "distinct_nontrivial": len(nontrivial) + gi["counts"]["patterns_biting"],
-        "rule": "%d random trees (name pool: hidden .git/.venv/.cache/.hidden.py, built-in excluded tests/test/build/dist/node_modules/venv/_build/buck-out, ordinary src/pkg/a/lib; depth <= 4; supported, unsupported and no extension; Latin-1, malformed, empty contents; a third of the trees with 1-3 symbolic links to files inside the tree - also in hidden / excluded folders - or outside the root) x 0-3 patterns of the 5 gitignore classes x pattern source (option/.codelimit.yml/.gitignore/mixed) x root form (%s) + %d fixed cases; state probe: after the first scan a share of the trees is mutated (a file copied / renamed to another extension in the same or another directory, new possibly empty files, contents swapped or emptied, files deleted) and scanned twice more in the same process - with the first scan's report (written and read back) handed in as cached_report, and from scratch: both must give the entries the property text requires for the mutated tree and agree with each other; non-trivial = distinct (tree, patterns) with at least one selected and one skipped file; round 5: the root is also spelled through a symbolic link to a directory (link_root) and with `..` AFTER such a link (`lnk/../root`, `z/lnk/sub/../../root`, absolute with `//`: the root is what the OS reaches, a decoy tree sits where textual `..` removal would land); a share of the file names comes from the Pygments-derived pool (every extension / whole name of a supported language: x.h, x.hh, x.mjs, x.pyi, BUILD.bazel, SConscript, ...; same-suffix non-sources AUTHORS / NOTICE / defs.bazel next to them), NFC / NFD spellings of one name (often both in one directory, also as directory names) and shell/JSON/pattern-awkward names; sub-directories carry nested .gitignore files whose lines name files beneath them (only the root one counts); rewritten files partly keep or get an OLD modification time before the rescan; PLUS pattern lists of the six classes x exhaustive / random path universes: the Lean pattern model vs Scanner.generate_exclude_spec + is_excluded (decisions, parse classes, generated regular expressions), and scan_path on real trees vs the model's selection (non-trivial there = patterns that exclude at least one path); PLUS %d pattern lists WITH negation lines (`!` + one of the six classes, aimed at a path an earlier line excludes; one source per list) x real trees + path universes: scan_path and generate_exclude_spec/is_excluded judged by the rule that the LAST matching line decides, where %s agrees (%d decisions judged, %d re-included by a `!` line, %d not judged because git decides per directory entry)" % (n, "/".join(FORMS), len(FIXED) + len(FORMS), gn["counts"]["cases"], "the real `git check-ignore`" if gn["counts"]["git"] else "(git not installed: the reading alone)", gn["counts"].get("judged", 0), gn["counts"].get("reincluded", 0), gn["counts"].get("git_differs_not_judged", 0)),
+        "rule": "%d random trees (name pool: hidden .git/.venv/.cache/.hidden.py, built-in excluded tests/test/build/dist/node_modules/venv/_build/buck-out, ordinary src/pkg/a/lib; depth <= 4; supported, unsupported and no extension; Latin-1, malformed, empty contents; a third of the trees with 1-3 symbolic links to files inside the tree - also in hidden / excluded folders - or outside the root) x 0-3 patterns of the 5 gitignore classes x pattern source (option/.codelimit.yml/.gitignore/mixed) x root form (%s) + %d fixed cases; state probe: after the first scan a share of the trees is mutated (a file copied / renamed to another extension in the same or another directory, new possibly empty files, contents swapped or emptied, files deleted) and scanned twice more in the same process - with the first scan's report (written and read back) handed in as cached_report, and from scratch: both must give the entries the property text requires for the mutated tree and agree with each other; non-trivial = distinct (tree, patterns) with at least one selected and one skipped file; round 5: the root is also spelled through a symbolic link to a directory (link_root) and with `..` AFTER such a link (`lnk/../root`, `z/lnk/sub/../../root`, absolute with `//`: the root is what the OS reaches, a decoy tree sits where textual `..` removal would land); a share of the file names comes from the Pygments-derived pool (every extension / whole name of a supported language: x.h, x.hh, x.mjs, x.pyi, BUILD.bazel, SConscript, ...; same-suffix non-sources AUTHORS / NOTICE / defs.bazel next to them), NFC / NFD spellings of one name (often both in one directory, also as directory names) and shell/JSON/pattern-awkward names; sub-directories carry nested .gitignore files whose lines name files beneath them (only the root one counts); rewritten files partly keep or get an OLD modification time before the rescan; round 6: %d cases carry an ENVIRONMENT (harness/select_real.gen_env): 1-3 directories above the root named from the hidden / built-in-excluded / plain pools (%d with a hidden ancestor), one of them the top of a git checkout / worktree (`.git` directory or file; %d) with a .gitignore whose lines are drawn from the names in the tree (%d over a root that has no .gitignore of its own) - only what lies under the root may count; the twin tree has no environment; files that are ONE function of n lines for n on the thresholds' neighbours and source-integer rungs, with / without final newline, CR LF; PLUS pattern lists of the six classes x exhaustive / random path universes: the Lean pattern model vs Scanner.generate_exclude_spec + is_excluded (decisions, parse classes, generated regular expressions), and scan_path on real trees vs the model's selection (non-trivial there = patterns that exclude at least one path); PLUS %d pattern lists WITH negation lines (`!` + one of the six classes, aimed at a path an earlier line excludes; one source per list) x real trees + path universes: scan_path and generate_exclude_spec/is_excluded judged by the rule that the LAST matching line decides, where %s agrees (%d decisions judged, %d re-included by a `!` line, %d not judged because git decides per directory entry)" % (n, "/".join(FORMS), len(FIXED) + len(FORMS), dist["with_environment"], dist["environment_hidden_ancestor"], dist["environment_git_checkout_above"], dist["environment_gitignore_above_and_none_at_root"], gn["counts"]["cases"], "the real `git check-ignore`" if gn["counts"]["git"] else "(git not installed: the reading alone)", gn["counts"].get("judged", 0), gn["counts"].get("reincluded", 0), gn["counts"].get("git_differs_not_judged", 0)),
         "samples": [{"form": c["form"], "patterns": c["patterns"], "sources": c["sources"],
                      "keys": [e[0] for e in o[0]["entries"]][:6]} for c, o in list(zip(cases, obs))[:4]],
         "exhaustive": False, "distribution": dist,
@@ -405,7 +421,7 @@ def replay(payload):
         print("stream %s: re-run the check" % c.get("stream")); return False
     real, _line, _ids = observe(c)
     bad = oracle(c, real)
-    print("root form %s, patterns %s via %s" % (c["form"], c["patterns"], c["sources"]))
+    print("root form %s, patterns %s via %s%s" % (c["form"], c["patterns"], c["sources"], "; environment: root = <tmp>/w/%s/root, files above the root: %s" % ("/".join(c["env"]["above"]), c["env"]["files"]) if c.get("env") else ""))
     print("scanned keys: %s" % [e[0] for e in real["entries"]])
     print("analysed:     %s" % real["analysed"])
     print("violated:     %s" % (bad or "nothing"))
